@@ -152,7 +152,13 @@ def run(prop, tier):
     napp = 240 if tier == "quick" else 4000
     pool = [i for i, c in enumerate(cases) if app_ok(c)]
     pri = [i for i in pool if kind_of(cases[i]) == "some-eligible"] + [i for i in pool if kind_of(cases[i]) != "some-eligible"]
-    chosen_idx = sorted(pri[:napp])
+    # half of the application cases have a player-list filter (allow / block by name, pattern or id) in their chain: there the decision
+    # depends on WHO the player is (the authenticated identity, not the one the client claimed)
+    def by_player(c):
+        return any(f["kind"] in ("allow", "block") and (f["names"] or f["pattern"] or f["ids"]) for f in c["abs"]["chain"])
+    pri_player = [i for i in pri if by_player(cases[i])]
+    pri_other = [i for i in pri if not by_player(cases[i])]
+    chosen_idx = sorted(pri_player[: napp // 2] + pri_other[: napp - min(len(pri_player), napp // 2)])
     app_in, app_out = os.path.join(wd, "app_in.ndjson"), os.path.join(wd, "app_obs.ndjson")
 
     def unempty(v):
